@@ -15,7 +15,8 @@ import gen_byteorder, gen_tables, emit_coq, gen_harness
 
 NPROC = 16
 HARNESS_CFLAGS = ['-std=gnu99', '-O1', '-g', '-fsanitize=address,undefined', '-fno-sanitize-recover=all',
-                  '-fno-omit-frame-pointer', '-w']
+                  '-fno-omit-frame-pointer', '-w',
+                  '-fno-sanitize=alignment']     # alignment assumptions are C15's subject and get their own instrumented build
 
 def log(*a):
     print(*a, file=sys.stderr, flush=True)
@@ -340,23 +341,18 @@ def run_harness(ctx, lines, env_extra=None, timeout=600):
     if env_extra:
         env.update(env_extra)
     while i < len(lines):
-        chunk = lines[i:]
+        chunk = lines[i:i + 150]        # blocks: after a crash only the rest of the block is fed again
         try:
             r = sh([ctx['hx']], inp=('\n'.join(chunk) + '\n').encode(), env=env, timeout=timeout)
-            got = r.stdout.decode(errors='replace').split('\n')
-            if got and got[-1] == '':
-                got.pop()
+            raw = r.stdout.decode(errors='replace')
             err = r.stderr.decode(errors='replace')
             rc = r.returncode
         except subprocess.TimeoutExpired as e:
-            got = (e.stdout or b'').decode(errors='replace').split('\n')
-            if got and got[-1] == '':
-                got.pop()
+            raw = (e.stdout or b'').decode(errors='replace')
             err = 'TIMEOUT'; rc = -9
-        # a partial last line belongs to the crashing command
+        # complete lines only: whatever follows the last newline belongs to the command that crashed
+        got = raw.split('\n')[:-1]
         n_ok = min(len(got), len(chunk))
-        if rc != 0 and n_ok > 0 and len(got) <= len(chunk) and not re.match(r'^(V |B |R |OK|NOSUCH|BADCMD|E )', got[-1] + ' '):
-            n_ok -= 1
         out += got[:n_ok]
         i += n_ok
         if i < len(lines) and (rc != 0 or n_ok < len(chunk)):
@@ -366,8 +362,6 @@ def run_harness(ctx, lines, env_extra=None, timeout=600):
             locs = LOC_RE.findall(err)
             out.append('CRASH %s %s' % (kind, locs[0] if locs else '?'))
             i += 1
-        elif rc == 0 and n_ok == len(chunk):
-            break
     return out
 
 def run_oracle(ctx, lines, timeout=900):
